@@ -173,6 +173,29 @@ func GenerateCases(seed int64, n, blocks int, outPath, scratch, jsonPath, profil
 				for _, d := range CompareRuns(h, r, "restarted") {
 					st.RestartDiffs = append(st.RestartDiffs, fmt.Sprintf("history %d: %s", i, d))
 				}
+				if h.Seed >= 900000 && !strings.Contains(profile, "judge") {
+					// a node restarted at EVERY boundary never carries in-memory state from one commit to the
+					// next; the scripted histories are run once more with a restart after every second block
+					// only, so that what a node keeps in memory across a commit meets what a restart reads back
+					rs2 := map[int64]bool{}
+					for _, b := range h.Blocks {
+						if b.Height%2 == 0 {
+							rs2[b.Height] = true
+						}
+					}
+					r2, ps2, rerr2 := RerunPerturbed(h, scratch, fmt.Sprintf("restarted-even-%d", i), Perturb{RestartAfter: rs2})
+					if rerr2 != nil {
+						return nil, rerr2
+					}
+					st.RestartRuns++
+					st.Restarts += ps2.Restarts
+					for _, d := range ps2.InfoMismatch {
+						st.RestartDiffs = append(st.RestartDiffs, fmt.Sprintf("history %d (restart after even heights): %s", i, d))
+					}
+					for _, d := range CompareRuns(h, r2, "restarted") {
+						st.RestartDiffs = append(st.RestartDiffs, fmt.Sprintf("history %d (restart after even heights): %s", i, d))
+					}
+				}
 			}
 		}
 	}
